@@ -130,6 +130,60 @@ def _enum_vars(fi) -> list[str]:
             and isinstance(n.target, ast.Tuple) and isinstance(n.target.elts[0], ast.Name)]
 
 
+def rule_optional_presence(ctx: Ctx, rep: Report) -> None:
+    """C14.optional_presence: in the descriptors package an optional field whose
+    class is sized (defines `__len__` / `__bool__`) is asked about with `is
+    None` / `is not None`, never by truthiness: a key origin with an empty
+    path, `[d34db33f]`, is an origin -- falsy, and present -- and a rendering
+    that tests `if self.origin:` writes the key without it, so the descriptor
+    does not parse back to itself and its checksum is another one's."""
+    rule = "C14.optional_presence"
+    n = 0
+    for modname in ("btclib.descriptors.key_expression", "btclib.descriptors.descriptors", "btclib.descriptors.miniscript", "btclib.wallet.wallet"):
+        mi = ctx.prog.modules.get(modname)
+        if mi is None:
+            continue
+        sized: dict[str, str] = {}  # field name -> class
+        for ci in mi.classes.values():
+            for st in ci.node.body:
+                if isinstance(st, ast.AnnAssign) and isinstance(st.target, ast.Name):
+                    ann = norm(st.annotation)
+                    if "None" not in ann:
+                        continue
+                    for part in ann.replace("Optional[", "").replace("]", "").split("|"):
+                        q = ctx.prog.resolve_name(mi, ast.parse(part.strip(), mode="eval").body) if part.strip().replace(".", "").isidentifier() else None
+                        c2 = ctx.prog.classes.get(q or "")
+                        if c2 is not None and (ctx.prog.lookup_method(c2, "__len__") is not None or ctx.prog.lookup_method(c2, "__bool__") is not None):
+                            sized[st.target.id] = c2.qualname
+        if not sized:
+            continue
+        for fi in sorted(mi.functions.values(), key=lambda f: f.qualname):
+            g = ctx.cfg(fi)
+            for nd in g.nodes:
+                if nd.kind != "test" or nd.ast is None:
+                    continue
+                e = nd.ast
+                while isinstance(e, ast.UnaryOp) and isinstance(e.op, ast.Not):
+                    e = e.operand
+                if isinstance(e, ast.Attribute) and e.attr in sized and isinstance(e.value, ast.Name):
+                    n += 1
+                    rep.ob(rule, f"{fi.qualname}:{norm(nd.ast)}", False, fi.where(nd.ast),
+                           f"`{norm(nd.ast)}` asks a {sized[e.attr].rsplit('.', 1)[1]} for its truth: an empty one is falsy and present")
+                elif isinstance(e, ast.Compare) and isinstance(e.left, ast.Attribute) and e.left.attr in sized and isinstance(e.ops[0], (ast.Is, ast.IsNot)):
+                    n += 1
+                    rep.ob(rule, f"{fi.qualname}:{norm(nd.ast)}", True, fi.where(nd.ast), "presence asked with `is None` / `is not None`")
+    rep.floor(rule, 1)
+
+
+def rule_wallet_config(ctx: Ctx, rep: Report) -> None:
+    """C14.wallet_config: a descriptor wallet hands the private keys it was given to
+    every descriptor call that takes them -- a descriptor holds no key that
+    signs or derives hardened steps, so a call without them answers for another
+    set of scripts (or refuses) where the wallet's own derivation would not."""
+    from rules.sigcommon import rule_config_forwarded
+    rule_config_forwarded(ctx, rep, "C14.wallet_config", "btclib.wallet.descriptor_wallet.DescriptorWallet", {"prv_keys": "prv_keys"}, 2)
+
+
 def rule_is_mine(ctx: Ctx, rep: Report) -> None:
     """C14.is_mine: recognition is whole-script equality over every branch and index."""
     rule = "C14.is_mine"
@@ -227,10 +281,16 @@ RULES = [
     ("C14.checksum_gate", rule_checksum_gate),
     ("C14.grammar", rule_grammar),
     ("C14.is_mine", rule_is_mine),
+    ("C14.wallet_config", rule_wallet_config),
+    ("C14.optional_presence", rule_optional_presence),
     ("C14.ranges", rule_ranges),
 ]
 
 CONTROLS = [
+    {"rule": "C14.wallet_config", "name": "position_of asks the descriptor without the private keys", "module": "btclib.wallet.descriptor_wallet",
+     "edit": lambda ctx: M.sub_module_expr(ctx, "btclib.wallet.descriptor_wallet", M.is_text("descriptor.index_of(script_pub_key, last_index, self.prv_keys)"), "descriptor.index_of(script_pub_key, last_index)")},
+    {"rule": "C14.optional_presence", "name": "the key origin is rendered only when truthy", "module": "btclib.descriptors.key_expression",
+     "edit": lambda ctx: M.sub_module_expr(ctx, "btclib.descriptors.key_expression", M.is_text("self.origin is not None"), "self.origin")},
     {"rule": "C14.checksum_gate", "name": "parse skips strip_checksum", "module": DS,
      "edit": lambda ctx: M.sub_expr(ctx, f"{DS}.parse", lambda n: isinstance(n, ast.Call) and call_name(n) == "strip_checksum", "descriptor.partition('#')[0]")},
     {"rule": "C14.checksum_gate", "name": "a wrong checksum is accepted", "module": DS,
